@@ -623,6 +623,36 @@ def rule_forward(fx, rep):
             "enemy-pawn-beside": any("Board::pawns" in t and "Player::other" in t and ("Bitboard::west" in t or "Bitboard::east" in t or "pawn_attacks" in t) for t in txts),
         }
 
+    def extra_factors(exprs):
+        """factors of the enemy-pawn-beside intersection other than the neighbour squares and the enemy's pawns: each one is an
+        additional condition under which a capturable double push is *not* recorded (e.g. `& !pins`: a pawn pinned on the
+        capture diagonal can still take en passant)"""
+        out = []
+        for e in exprs:
+            d = deep_strip(e)
+            if not (isinstance(d, tuple) and d and d[0] == "call" and str(d[1]).split("::")[-1] in ("any", "is_empty") and d[2]):
+                continue
+            txt = show(d)
+            if not ("Board::pawns" in txt and "Player::other" in txt and ("Bitboard::west" in txt or "Bitboard::east" in txt or "pawn_attacks" in txt)):
+                continue
+            fac = []
+
+            def flat(x):
+                x = deep_strip(x)
+                if isinstance(x, tuple) and x and x[0] == "call" and str(x[1]).endswith("BitAnd>::bitand") and len(x[2]) == 2:
+                    flat(x[2][0])
+                    flat(x[2][1])
+                else:
+                    fac.append(x)
+            flat(d[2][0])
+            for f in fac:
+                t = show(f)
+                nb = "Bitboard::west" in t or "Bitboard::east" in t or "pawn_attacks" in t
+                pw = "Board::pawns" in t and "Player::other" in t
+                if not (nb or pw):
+                    out.append(t[:100])
+        return out
+
     verdict = None  # (good, why)
     for bb, j, s in bm.stmts():
         rv = s.get("rv")
@@ -632,6 +662,9 @@ def rule_forward(fx, rep):
                 conds = guard_conditions(bm, bb, expand_named=True)
                 need = need_from([show(e) for (e, pol, w) in conds if pol is True])
                 verdict = (all(need.values()), f"conditions present: {need}")
+                xf = extra_factors([e for (e, pol, w) in conds if pol is True])
+                if verdict[0] and xf:
+                    verdict = (False, f"the enemy pawns beside the pushed pawn are further restricted by `{xf[0]}`: a capturable double push is then not recorded")
     if verdict is None:
         # `cond.then_some(from.forward(player))`
         for bb, t in bm.calls():
@@ -786,6 +819,9 @@ def rule_forward(fx, rep):
 
 G = "src/chess/game.rs"
 MUTANTS = [
+    {"name": "pinned enemy pawns do not count as en-passant capturers (seed C02-7a)", "expect": "C02-FORWARD/ep-target",
+     "edits": [("src/chess/game.rs", "            let en_passant_can_happen = (en_passant_attacker_squares & enemy_pawns).any();", "            let enemy_king = self.board.king(other_player).single();\n            let (orthogonal_pins, diagonal_pins) = crate::chess::movegen::get_pins(&self.board, other_player, enemy_king);\n            let en_passant_can_happen = (en_passant_attacker_squares & enemy_pawns & !(orthogonal_pins | diagonal_pins)).any();"),
+               ("src/chess/movegen/mod.rs", "pub use attackers::{all_attackers_of, generate_attackers_of};", "pub use attackers::{all_attackers_of, generate_attackers_of};\npub use pins::get_pins;")]},
     {"name": "en-passant target recorded when any enemy piece attacks the skipped square (seed C02-6b)", "expect": "C02-FORWARD/ep-target",
      "edits": [("src/chess/game.rs", "            let to_bb = to.bb();\n            let en_passant_attacker_squares = to_bb.west() | to_bb.east();\n            let enemy_pawns = self.board.pawns(other_player);\n            let en_passant_can_happen = (en_passant_attacker_squares & enemy_pawns).any();\n\n            if en_passant_can_happen {\n                Some(from.forward(player))\n            } else {\n                None\n            }",
                 "            let skipped_square = from.forward(player);\n            let en_passant_can_happen = crate::chess::movegen::generate_attackers_of(&self.board, player, skipped_square).any();\n            en_passant_can_happen.then_some(skipped_square)")]},
